@@ -496,6 +496,17 @@ def walk_no_nested(node: ast.AST) -> Iterator[ast.AST]:
         stack.extend(reversed(list(ast.iter_child_nodes(n))))
 
 
+def unparse_positional(fn, node: ast.AST) -> str:
+    """Source text of `node` with the positional parameters of `fn` written `$0`, `$1`, ... : a way to name a construct (finding keys,
+    exemption tables) that does not depend on what the parameters are called."""
+    pos = {p_: f"${i}" for i, p_ in enumerate(fn.positional_params())}
+    shown = ast.parse(unparse(node), mode="eval").body if isinstance(node, ast.expr) else ast.parse(unparse(node))
+    for x in ast.walk(shown):
+        if isinstance(x, ast.Name) and x.id in pos:
+            x.id = pos[x.id]
+    return unparse(shown)
+
+
 # ---------------------------------------------------------------------- types / calls
 class Resolver:
     """Light type inference + call resolution inside one function (E3)."""
